@@ -220,7 +220,7 @@ func C06(tier string) {
 		p := progs[pi]
 		work := filepath.Join(run.Scratch, "work-"+p.Name)
 		_ = os.MkdirAll(work, 0o755)
-		y, err := deriveConfig(p.YAML, p.OrigDir, map[string]any{})
+		y, err := deriveConfig(p.YAML, p.OrigDir, work, map[string]any{})
 		if err != nil {
 			run.Inconclusive(p.Name + ": " + err.Error())
 			return
